@@ -25,6 +25,10 @@ CLAIMS = {
         "text": "All four clauses (nothing pending with no guard alive; no read() pending without writer; no upgradable_read() pending with a free slot; no writer/upgrade pending once no reader is left) are Lean theorems over every finite history of the poll-granular RwLock model (full alphabet, borrowed and Arc, cancellation at every point, completed futures kept alive). They rest on three inductive invariants proved for every reachable state: WordInv (who holds what), RegInv (which future is registered on which of the three events; no stale listeners) and WakeInv (a notified listener's owner has an outstanding wake-up; the inner mutex, no_writer and no_readers each hold a notification whenever a registered waiter could proceed). " + _TIE + " Compared fields: outcome, wakers called, both words, listener counts and notified flags of all three events.",
         "note": "PARTIAL: polls are atomic in the model; thread interleavings are not covered by the theorems. event-listener is modelled, not verified. Reading: a never-polled live upgrade future counts as a holder.",
     },
+    "C09": {
+        "text": "For every n and every finite history of the poll-granular Barrier model (any number of waits, spurious polls, new wakers, cancellation at any point, any number of generations): arrivals = generations * max(n,1) + count with count < max(n,1) and exactly one leader per completed generation (C09_accounting); a follower returns only when its arrival generation is complete and the leader is the arrival that completes it (C09_no_early); at quiescence no live wait of a completed generation is pending (C09_release); a wait of the current generation never completes whatever notification reaches it (C09_isolation) - Lean theorems from the invariant BInv. " + _TIE + " Compared fields: outcome (leader/follower), wakers called, inner mutex word, count, generation, listener counts.",
+        "note": "PARTIAL: atomic polls (the embedded mutex's slow path and thread interleavings are not exercised by this model); wait_blocking not modelled.",
+    },
     "C10": {
         "text": "The state words of Mutex, Semaphore and RwLock are proved to account exactly for the operations that are alive, and every registered listener to belong to a live operation, at every state of every history in which futures are dropped at any moment (never polled, pending, notified, completed). Drain theorems: once no future and no guard is alive the words are zero / every issued permit is back, all event queues are empty, and try_lock / try_write / try_acquire (all permits) succeed. " + _TIE,
         "note": "PARTIAL: 'as if never started' is claimed as exact accounting and equal grants, not trace equality; atomic calls; the thread race 'drop a pending future while another thread releases' is not covered by the theorems.",
